@@ -722,7 +722,7 @@ class VM:
         if isinstance(e, ast.Compare):
             for st1, vs in self._ev_list([e.left] + list(e.comparators), st, frame):
                 if len(e.ops) == 1 and isinstance(e.ops[0], (ast.Is, ast.IsNot)) and isinstance(vs[1], Const) and vs[1].value is None:
-                    yield st1, Cond(src(e, 60), "is-none", vs[0], "", isinstance(e.ops[0], ast.IsNot))
+                    yield st1, Cond(src(e, 60), "is-none", vs[0], "", isinstance(e.ops[0], ast.IsNot), node=e)
                 elif len(e.ops) == 1 and isinstance(e.ops[0], (ast.Eq, ast.NotEq)) and isinstance(vs[0], StackLen) and isinstance(vs[1], Const) and vs[1].value == 0:
                     yield st1, Cond(src(e, 60), "stack-nonempty", None, "", isinstance(e.ops[0], ast.Eq))
                 elif all(isinstance(v, Const) for v in vs) and len(e.ops) == 1 and isinstance(e.ops[0], (ast.Eq, ast.NotEq, ast.Lt, ast.Gt, ast.LtE, ast.GtE)):
@@ -731,9 +731,9 @@ class VM:
                     try:
                         yield st1, Const(fn(vs[0].value, vs[1].value))
                     except TypeError:
-                        yield st1, Cond(src(e, 60), "other", kids=tuple(vs))
+                        yield st1, Cond(src(e, 60), "other", kids=tuple(vs), node=e)
                 else:
-                    yield st1, Cond(src(e, 60), "other", kids=tuple(vs))
+                    yield st1, Cond(src(e, 60), "other", kids=tuple(vs), node=e)
             return
         if isinstance(e, ast.BinOp):
             for st1, vs in self._ev_list([e.left, e.right], st, frame):
@@ -811,7 +811,7 @@ class VM:
                 if self._touches_vm(r) and any(self._pop_call(n, st1) or (isinstance(n, ast.Call) and isinstance(n.func, ast.Attribute) and n.func.attr in ("append", "push", "new_variable")) for n in ast.walk(r)):
                     raise Unrecognised(f"line {getattr(e, 'lineno', 0)}: VM-state effect inside a short-circuit operand")
             for st2, vs in self._ev_list(rest, st1, frame):
-                yield st2, Cond(src(e, 70), "bool-op", None, "and" if is_and else "or", False, tuple([v] + vs))
+                yield st2, Cond(src(e, 70), "bool-op", None, "and" if is_and else "or", False, tuple([v] + vs), node=e)
 
     # ---------------------------------------------------------------- attribute
     def _attr_value(self, base: Val, attr: str, st: State) -> Val:
@@ -1120,7 +1120,7 @@ class VM:
                     return
                 if last == "isinstance" and len(pos) == 2:
                     cls_txt = src(e.args[1], 40)
-                    yield st, Cond(src(e, 60), "isinstance", pos[0], cls_txt)
+                    yield st, Cond(src(e, 60), "isinstance", pos[0], cls_txt, node=e)
                     return
                 if last == "len" and len(pos) == 1 and isinstance(pos[0], Seq):
                     yield st, Const(len(st.heap.get(pos[0].uid, [])))
